@@ -177,14 +177,27 @@ impl WorkerPool {
     }
     fn spawn(&mut self) {
         let exe = std::env::current_exe().unwrap();
-        let mut ch = std::process::Command::new(exe)
-            .arg(&self.subcmd)
-            .arg("--worker")
-            .stdin(std::process::Stdio::piped())
-            .stdout(std::process::Stdio::piped())
-            .stderr(std::process::Stdio::null())
-            .spawn()
-            .expect("spawn worker");
+        // a few attempts: the binary may be in the middle of being replaced by a concurrent build
+        let mut tries = 0;
+        let mut ch = loop {
+            match std::process::Command::new(&exe)
+                .arg(&self.subcmd)
+                .arg("--worker")
+                .stdin(std::process::Stdio::piped())
+                .stdout(std::process::Stdio::piped())
+                .stderr(std::process::Stdio::null())
+                .spawn()
+            {
+                Ok(ch) => break ch,
+                Err(e) => {
+                    tries += 1;
+                    if tries >= 10 {
+                        panic!("spawn worker: {}", e);
+                    }
+                    std::thread::sleep(std::time::Duration::from_millis(300));
+                }
+            }
+        };
         let out = ch.stdout.take().unwrap();
         let (tx, rx) = std::sync::mpsc::channel();
         std::thread::spawn(move || {
@@ -237,6 +250,16 @@ impl WorkerPool {
 }
 impl Drop for WorkerPool {
     fn drop(&mut self) {
+        // let an idle worker end by itself (end of input), so that it runs its exit handlers
+        if let Some((ch, _)) = self.child.as_mut() {
+            drop(ch.stdin.take());
+            for _ in 0..100 {
+                match ch.try_wait() {
+                    Ok(None) => std::thread::sleep(std::time::Duration::from_millis(20)),
+                    _ => break,
+                }
+            }
+        }
         self.kill();
     }
 }
